@@ -212,7 +212,9 @@ fn run_case_pre(cmds: &[Cmd], pos: usize, batch_mask: u64, window: u64, extra: C
         } else {
             let mut c = cmds[ci];
             ci += 1;
-            if exit_queued && c == Cmd::GetIpInterval {
+            // (a second clone's shutdown() queued earlier has put an Exit into the queue just the same)
+            let exit_ahead = exit_queued || cmds[..ci - 1].contains(&Cmd::Shutdown2);
+            if exit_ahead && c == Cmd::GetIpInterval {
                 c = Cmd::Status; // a free-running thread cannot be placed behind Exit deterministically
             }
             if !exit_queued {
@@ -226,7 +228,7 @@ fn run_case_pre(cmds: &[Cmd], pos: usize, batch_mask: u64, window: u64, extra: C
                 executed.push(c);
             }
             let is = issue(&mut w, &h1, c);
-            if !exit_queued {
+            if !exit_ahead {
                 settle_helper(&mut w, &is);
             }
             issued.push(is);
